@@ -150,6 +150,16 @@ def cases(rng, ctx):
         n = rng.randrange(0, 12)
         s = ''.join(rng.choice(alpha + other) for _ in range(n))
         out.append({'kind': 'str', 'q': q, 's': s})
+    # characters that a normalisation of the source text (NFKC, full-width -> ASCII, case folding, strip, dropping format
+    # characters) would rewrite: a literal holds them verbatim
+    norm = ('\uff01\uff02\uff07\uff08\uff09\uff0b\uff0c\uff10\uff11\uff19\uff1b\uff1d\uff21\uff3a\uff41\uff5a\uff5e\u3000'
+            '\ufb01\ufb06\u00b2\u00bd\u212a\u212b\u017f\u0131\u0130\u00df\u0301\u00a0\u200b\u200d\u00ad\ufeff\u2028\u2029\u0085'
+            '\u200f\r\x0b\x0c\u2160\u2460\u33a1\uff76\uff9e')
+    for _ in range(300 * sc):
+        q = rng.choice(['"', "'"])
+        n = rng.randrange(1, 8)
+        s = ''.join(rng.choice(norm) if rng.random() < 0.6 else rng.choice('ab 1') for _ in range(n))
+        out.append({'kind': 'str', 'q': q, 's': s})
     for s in ['', ' ', '\\', 'a\\', '\\\\', "it's", 'say "hi"', 'x' * 200]:
         for q in ['"', "'"]:
             if q not in s:
